@@ -40,6 +40,9 @@ CLAIMED = {
  "C14": ("Ownership discipline of every package-level variable of both packages (235 variables), decided on the SSA of all functions: write-once (stored only by package init, and nothing reachable through it is written elsewhere), atomic (varCounter: only through sync/atomic), guarded-by (atomTable: every read under Lock/RLock, every write under Lock, unlock only by defer, and a write's critical section contains the reads it decides on), test-hook. So two interpreters share no mutable memory except the two synchronised globals.",
          "Fragment: a happens-before argument (the family has no thread model), races inside one interpreter between the query goroutine and its consumer (Solutions.err), value flow across function boundaries (a map reachable from a global passed to a callee that mutates it is not followed), and the stores of Force/child to shared promise objects are not decided here.",
          "contract-based verification: frame/ownership obligations decided structurally on go/ssa (no solver)", "DESIGN.md 5 C14"),
+ "C08": ("Contracts on the standard order: Integer/Float/Atom/Variable.Compare return -1/0/1, order another type by the rank Var < Float < Integer < Atom < other atomic < Compound and the same type by the mathematical difference (no overflow), the IEEE order, the text order (strings.Compare), the variable number; each compares the resolved term; CompareCompound orders by arity, then name, then the first argument whose comparison is non-zero (loop invariant: all earlier arguments compare equal), 0 exactly when all compare equal; keysort/2 goes through sort.SliceStable.",
+         "Fragment: the order laws themselves (antisymmetry, transitivity, totality over compounds) follow from these clauses by induction over terms, which is not mechanised; sort/2's and setof/3's sort+dedupe (Env.set) and representation independence for partial/char/code lists are not decided. Term.Compare and Compound.Arity/Functor/Arg are deterministic abstract functions that the concrete methods define (assumed, listed); Env.Resolve is trusted.",
+         "contract-based deductive verification: WP over go/ssa with interface-level abstract functions and loop invariants; SMT", "DESIGN.md 5 C08"),
 }
 
 NA_REASON = {
